@@ -150,6 +150,8 @@ def _run(ctx, pq):
             x = util.path_string(v)
         else:
             x = rng.choice(ADVERSARIAL)
+        if kind[0] == 4 and x.strip().lower() in ("now", "today"):
+            x = "2001-02-03"            # np.datetime64("now") is the wall clock: not a function of the text
         texts.append((kind, x))
     table = L.oracle_table([x for _, x in texts])
     for kind, x in texts:
@@ -194,7 +196,8 @@ def _run(ctx, pq):
             pool = []
             for _ in range(rng.choice([1, 2, 3])):
                 if kd is None or rng.random() < 0.3:
-                    pool.append(rng.choice([t for t in ADVERSARIAL if L.legal_text(t, True)]))
+                    pool.append(rng.choice([t for t in ADVERSARIAL if L.legal_text(t, True)
+                                            and not (kd is not None and kd[0] == 4 and t.lower() in ("now", "today"))]))
                 else:
                     while True:
                         v, k = rand_typed_value(rng)
